@@ -1626,6 +1626,11 @@ func ZipAll[T any]() func(Observable[Observable[T]]) Observable[[]T] {
 					subscriberCtx,
 					NewObserverWithContext(
 						func(ctx context.Context, flattenSources []Observable[T]) {
+							if len(flattenSources) == 0 {
+								destination.CompleteWithContext(ctx)
+								return
+							}
+
 							innerSub.Add(
 								// ...then we zip all inner observables.
 								zipAllInnerSubscriptions(ctx, flattenSources, destination),
@@ -1635,7 +1640,8 @@ func ZipAll[T any]() func(Observable[Observable[T]]) Observable[[]T] {
 							destination.ErrorWithContext(ctx, err)
 						},
 						func(ctx context.Context) {
-							destination.CompleteWithContext(ctx)
+							// The list of sources is complete: the output completes when
+							// the zipped sources say so, not before they had a chance to emit.
 						},
 					),
 				)
